@@ -43,6 +43,9 @@ var curCall *ssa.CallCommon
 
 func init() {
 	boolT := types.Typ[types.Bool]
+	trustedModelWrites["io.ReadFull"] = func(e *Enc, c *ssa.CallCommon) []string {
+		return []string{e.elemKey(types.Typ[types.Uint8])}
+	}
 	genericModels["maps.Copy["] = func(e *Enc, fr *frame, st *State, a []Value, p string, rt types.Type) Value {
 		dst, src := a[0], a[1]
 		dom, val, ln := e.mapKeys(dst.typ)
@@ -234,6 +237,21 @@ func init() {
 			r := e.freshValue(st, p, rt)
 			st.assume("(and (not (= (itag " + r.tuple[0].term + ") 0)) (not (= " + r.tuple[1].term + " 0)))")
 			return r
+		},
+		// io.ReadFull(r, buf): buf is overwritten with unknown bytes; n == len(buf) iff err == nil
+		"io.ReadFull": func(e *Enc, fr *frame, st *State, a []Value, p string, rt types.Type) Value {
+			e.oblige(st, "nopanic", "nil-interface-call Read (io.ReadFull)", "(not (= (itag "+a[0].term+") 0))", 0)
+			ek := e.elemKey(types.Typ[types.Uint8])
+			na := e.q.fresh(p+"_bytes", "(Array Int Int)")
+			j := e.q.freshBound("j")
+			st.assume(fmt.Sprintf("(forall ((%[1]s Int)) (and (<= 0 (select %[2]s %[1]s)) (<= (select %[2]s %[1]s) 255)))", j, na))
+			st.set(ek, store(st.get(ek), "(s_arr "+a[1].term+")", na))
+			r := e.freshValue(st, p, rt)
+			st.assume("(=> (= (itag " + r.tuple[1].term + ") 0) (= " + r.tuple[0].term + " (s_len " + a[1].term + ")))")
+			return r
+		},
+		"io.CopyN": func(e *Enc, fr *frame, st *State, a []Value, p string, rt types.Type) Value {
+			return e.freshValue(st, p, rt)
 		},
 		"math/rand.New": func(e *Enc, fr *frame, st *State, a []Value, p string, rt types.Type) Value {
 			r := e.freshValue(st, p, rt)
